@@ -162,6 +162,10 @@ class Tr:
         c = self.cond(t, env)
         a, ta = self.expr(node.body, env)
         b, tb = self.expr(node.orelse, env)
+        if (ta, tb) == (INT, NONE):  # `e if c else None`: an optional integer
+            return f"(if {c} then some {a} else none)", OPT
+        if (ta, tb) == (NONE, INT):
+            return f"(if {c} then none else some {b})", OPT
         if ta != tb:
             raise Refuse("ifexp branches differ in type")
         return f"(if {c} then {a} else {b})", ta
@@ -237,6 +241,11 @@ class Tr:
             return f"({self.lname(node.id)} = true)"
         if isinstance(node, ast.Constant) and isinstance(node.value, bool):
             return "True" if node.value else "False"
+        if isinstance(node, ast.Call | ast.Name | ast.Subscript | ast.Attribute | ast.BinOp):
+            # an integer used as a truth value (`if len(x):`): Python truthiness of int is `!= 0`
+            a, t = self.expr(node, env)
+            if t == INT:
+                return f"({a} ≠ (0 : Int))"
         raise Refuse(f"condition {k}")
 
     # ---------------------------------------------------------------- statements
@@ -318,6 +327,13 @@ class Tr:
             node = ast.BinOp(left=ast.Name(id=s.target.id, ctx=ast.Load()), op=s.op, right=s.value)
             return self.block([ast.Assign(targets=[s.target], value=node), *rest], env, ind)
         if isinstance(s, ast.If):
+            if (isinstance(s.test, ast.BoolOp) and isinstance(s.test.op, ast.And) and len(s.test.values) >= 2
+                    and self.is_none_test(s.test.values[0], env)):
+                # `if v is [not] None and B: body else: orelse`  ==  `if v is [not] None: (if B: body else: orelse) else: orelse`
+                vals = s.test.values
+                inner_test = vals[1] if len(vals) == 2 else ast.BoolOp(op=ast.And(), values=vals[1:])
+                inner = ast.If(test=inner_test, body=s.body, orelse=s.orelse)
+                s = ast.If(test=vals[0], body=[inner], orelse=s.orelse)
             isn = self.is_none_test(s.test, env)
             if isn:
                 var, positive = isn
